@@ -165,6 +165,25 @@ theorem astar_path_optimal_cut (net : Net W) (hnet : WFNet net) (hu : UniqueIds 
   cases e
   exact ⟨l, g, g', a, b, c⟩
 
+/-- paths requested after an A* search that was STOPPED (at its target `t0`, or by a cut-off), consistent heuristic: for every
+node `t ≠ s` that the search had settled (`visite`) before it stopped, `run_routing_backward(t)` returns a route from `s` to
+`t` whose weights sum to the true distance. (Nodes labelled but not settled may get a tentative route: `astar_path_is_walk`.) -/
+theorem astar_backward_settled_optimal (net : Net W) (hnet : WFNet net) (hu : UniqueIds net) (geo : Geo P) (h : Nat → W)
+    (hc : Consistent net h) (s : Nat) (hs : s < net.n) (t0 : Option Nat) (cut : Option W) (t : Nat)
+    (hv : (runForwardH net h s t0 cut).1.vis t = true) (hts : t ≠ s) :
+    ∃ l g g' y, runBackward net geo (runForwardH net h s t0 cut).1 t = .path (l ++ [t]) (g ++ [geo.pos t]) ∧
+      Route net geo s l g g' t y ∧ IsDist net s t y := by
+  have hg := forwardH_goodH net hnet h s hs t0 cut
+  obtain ⟨_, h2⟩ := runBackward_spec_any net hu geo s _ hg t
+  obtain ⟨hb, _, rk, K, hp⟩ := hg
+  obtain ⟨x, hx⟩ := hb.b5 t hv
+  have hsome := hp.p3 t x hts hx
+  cases hpt : (runForwardH net h s t0 cut).1.pred t with
+  | none => rw [hpt] at hsome; cases hsome
+  | some p =>
+    obtain ⟨l, g, g', y, hd, hr, hbk⟩ := h2 p hpt
+    exact ⟨l, g, g', y, hbk, hr, (runForwardH_entries net hnet h hc s hs t0 cut).2.2 t y hv hd⟩
+
 /-- with `routing_mode ≠ 1` (the default) the value of `heuristic` is its initial `0` in every call: the object answers
 every call, and is left in the state, of the Dijkstra session of `Model/GraphPathExt.lean` (`Props/C07.lean`: `session_*`),
 whatever `astar_wgt` and the node coordinates -/
@@ -244,6 +263,93 @@ theorem setters_touch_settings_only (sqrt : W → W) (net : Net W) (geo : GeoT) 
     (stepOpA sqrt net geo pos order sa (.setMethod m)).1 = { sa with mode := m } ∧
     (stepOpA sqrt net geo pos order sa (.setWeight w)).1 = { sa with wgt := w } := ⟨rfl, rfl⟩
 end session
+
+/-! ### sequences of calls on one object with routing settings -/
+section machine
+set_option linter.unusedSectionVars false
+variable {W : Type} [LinearOrder W] [Add W] [Zero W] [WalkAdd W] [Sub W] [Mul W]
+
+/-- the flags a session leaves on the nodes are those of a forward pass (in either mode) from some source of the network -/
+def SessGoodH (net : Net W) (se : GraphExt.Sess W) : Prop := ∀ st, se.flags = some st → ∃ s, s < net.n ∧ GoodH net s st
+
+/-- the source of a routing call is a node of the network -/
+def OpOkA (net : Net W) : OpA W → Prop
+  | .call op => OpOk net op
+  | _ => True
+
+theorem backward_out_okH (net : Net W) (hu : UniqueIds net) (geo : GeoT) (s : Nat) (st : St W) (hg : GoodH net s st)
+    (t : Nat) : OutOk net geo (.path (runBackwardT net geo st t) (st.d t)) := by
+  obtain ⟨h1, h2⟩ := runBackward_spec_any net hu geo.toGeo s st hg t
+  rw [runBackwardT_eq]
+  cases hp : st.pred t with
+  | none => rw [h1 hp]; exact ⟨fun h => (by cases h), fun _ _ h => by cases h⟩
+  | some p =>
+    obtain ⟨l, g, g', y, hd, hr, hb⟩ := h2 p hp
+    rw [hb]
+    refine ⟨fun h => (by cases h), fun nodes trk h => ?_⟩
+    simp only [liftBack, BackT.path.injEq] at h
+    obtain ⟨rfl, rfl⟩ := h
+    exact ⟨s, t, l, g, g', y, rfl, rfl, hr, hd⟩
+
+theorem sess_forwardH_good (net : Net W) (hnet : WFNet net) (h : Nat → W) (se : GraphExt.Sess W) (s : NodeArg) (t : Option NodeArg)
+    (cut : Option W) (ud : Bool) (hs : correctInputNode s < net.n) : SessGoodH net (se.forwardH net h s t cut ud) := by
+  intro st hst
+  simp only [GraphExt.Sess.forwardH, Option.some.injEq] at hst
+  subst hst
+  exact ⟨correctInputNode s, hs, forwardH_goodH net hnet h _ hs (t.map correctInputNode) cut⟩
+
+/-- STATE MACHINE in A* mode: in ANY sequence of `setRoutingMethod` / `setAStarWeight` / `shortest_path` /
+`shortest_distance` / `run_routing_forward` / `run_routing_backward` calls on one network — any settings (any `astar_wgt`,
+any coordinates: the heuristic need not be consistent), switched at any moment, any targets and cut-offs,
+`run_routing_backward` for any node after any search — the backward loop always terminates and every track returned is the
+chain of a real route whose edge weights sum to the label of its last node. -/
+theorem astar_session_outputs_ok (sqrt : W → W) (net : Net W) (hnet : WFNet net) (hu : UniqueIds net) (geo : GeoT)
+    (pos : Nat → Pos W) (order : List Nat) :
+    ∀ (ops : List (OpA W)) (sa : SessA W), (∀ op ∈ ops, OpOkA net op) → SessGoodH net sa.sess →
+      (∀ o ∈ (runSessionA sqrt net geo pos order sa ops).1, OutOk net geo o) ∧
+      SessGoodH net (runSessionA sqrt net geo pos order sa ops).2.sess := by
+  intro ops
+  induction ops with
+  | nil => intro sa _ hse; exact ⟨fun o ho => (by cases ho), hse⟩
+  | cons op ops ih =>
+    intro sa hok hse
+    have hop := hok op (List.mem_cons_self)
+    have hstep : OutOk net geo (stepOpA sqrt net geo pos order sa op).2 ∧
+        SessGoodH net (stepOpA sqrt net geo pos order sa op).1.sess := by
+      cases op with
+      | setMethod m => exact ⟨trivial, hse⟩
+      | setWeight w => exact ⟨trivial, hse⟩
+      | call op =>
+        cases op with
+        | path s t cut ud =>
+          have hg := sess_forwardH_good net hnet (sa.h sqrt pos (some (correctInputNode t))) sa.sess s (some t) cut ud hop
+          simp only [stepOpA, stepOpH]
+          split
+          · rename_i st hst
+            obtain ⟨s0, _, hgood⟩ := hg st hst
+            exact ⟨backward_out_okH net hu geo s0 st hgood _, hg⟩
+          · exact ⟨trivial, hg⟩
+        | dist s t cut ud =>
+          have hg := sess_forwardH_good net hnet (sa.h sqrt pos (t.map correctInputNode)) sa.sess s t cut ud hop
+          simp only [stepOpA, stepOpH]
+          split <;> exact ⟨trivial, hg⟩
+        | fwd s t cut ud =>
+          exact ⟨trivial, sess_forwardH_good net hnet (sa.h sqrt pos (t.map correctInputNode)) sa.sess s t cut ud hop⟩
+        | back t =>
+          simp only [stepOpA, stepOpH]
+          split
+          · exact ⟨trivial, hse⟩
+          · rename_i st hst
+            obtain ⟨s0, _, hgood⟩ := hse st hst
+            exact ⟨backward_out_okH net hu geo s0 st hgood _, hse⟩
+    obtain ⟨ih1, ih2⟩ := ih (stepOpA sqrt net geo pos order sa op).1 (fun o ho => hok o (List.mem_cons_of_mem _ ho)) hstep.2
+    refine ⟨?_, ih2⟩
+    intro o ho
+    simp only [runSessionA, List.mem_cons] at ho
+    rcases ho with rfl | ho
+    · exact hstep.1
+    · exact ih1 o ho
+end machine
 
 /-! ### the hypotheses are satisfiable, and the model computes -/
 
